@@ -115,6 +115,10 @@ func exText(v Val) string {
 		return strconv.FormatInt(v.I, 10)
 	case "b":
 		return strconv.FormatBool(v.I != 0)
+	case "f":
+		return strconv.FormatFloat(float64(v.I)/4, 'g', -1, 64)
+	case "rune":
+		return strconv.FormatInt(v.I, 10)
 	case "ref":
 		switch v.D % nDress {
 		case dNative, dAliasStr, dPtrNative:
